@@ -9,7 +9,8 @@ THEOREMS = [("DVProps.C04", "C04_cell_lower_bound"), ("DVProps.C04", "C04_cell_a
             ("DVProps.C04", "C04_matrix_shape"), ("DVProps.C04", "C04_out_of_band_inf"),
             ("DVProps.C04", "C04_code_matrix_is_spec"), ("DVProps.C04", "C04_code_matrix_with_bound"),
             ("DVProps.C04", "C04_code_value"), ("DVProps.C04", "C04_c_fill_and_expand_agree_on_the_slot"),
-            ("DVProps.C04", "C04_c_fill_stores_the_matrix"), ("DVProps.C04", "C04_c_recurrence_texts")]
+            ("DVProps.C04", "C04_c_fill_stores_the_matrix"), ("DVProps.C04", "C04_c_recurrence_texts"),
+            ("DVProps.C04", "C04_c_fill_rows_store_the_matrix")]
 TRUSTED_BASE = [
     "Coq 8.16.1 kernel (no native_compute)",
     "tools/translate_py.py (band expressions of dtw.warping_paths regenerated into coq/gen/Gen_dtw.v)",
@@ -87,6 +88,16 @@ def expected(cases, oracle):
             d, mt = a.split(" | ")
             out[k]["code"] = {"d": math.inf if d == "inf" else int(d),
                               "m": [[math.inf if t == "inf" else int(t) for t in row.split()] for row in mt.split(" ; ")]}
+    # the compact array as the model of the C fill loops leaves it (CFillSim.stored_rows), for cases without a bound
+    idx, lines = [], []
+    for k, c in enumerate(cases):
+        if c["site"] != "c.wps_compact" or "err" in out[k] or _bounds(c)[0] is not None or c["settings"].get("max_length_diff") is not None:
+            continue
+        idx.append(k)
+        lines.append(dtwgen.oracle_line("ccompact", c))
+    for k, a in zip(idx, oracle.query(lines)):
+        if not a.startswith("ERR"):
+            out[k]["ccompact"] = [[math.inf if t == "inf" else int(t) for t in row.split()] for row in a.split(" ; ")]
     # the -1 marks of the end relaxation as written (RelaxedEnd.marked over the specification matrix, which the
     # as-written matrix equals when there is no bound)
     idx, lines = [], []
@@ -143,6 +154,7 @@ def impl_run(case):
                     beyond.append([i, sl, v])
         out["layout_view"] = view
         out["layout_beyond"] = beyond
+        out["compact_rows"] = [[float(flat[i * width + sl]) for sl in range(width)] for i in range(r + 1)]
     else:
         out["layout_size"] = [int(flat.size), (r + 1) * width]
     # red zones as large as the whole matrix: a stray write of the slice routine (finding F17, since fixed) lands in
@@ -269,6 +281,18 @@ def judge(case, got, exp):
         return {"kind": "slice-out-of-bounds-write", "slices": [s["sl"] for s in g["slices"] if not s["guard"]]}
     if "layout_size" in g:
         return {"kind": "compact-array-size", "got": g["layout_size"]}
+    if "ccompact" in exp and "compact_rows" in g:
+        # the model of the fill loops as written predicts every slot (the -1 marks of psi_neg aside)
+        cm, cr = exp["ccompact"], g["compact_rows"]
+        if len(cm) != len(cr) or any(len(a) != len(b) for a, b in zip(cm, cr)):
+            return {"kind": "fill-model-differs:shape", "got": [len(cr), len(cr[0]) if cr else 0],
+                    "model": [len(cm), len(cm[0]) if cm else 0]}
+        for i, (ra, rb2) in enumerate(zip(cr, cm)):
+            for sl, (x, y) in enumerate(zip(ra, rb2)):
+                if case.get("psi_neg") and x == -1:
+                    continue
+                if x != _transform(y, case):
+                    return {"kind": "fill-model-differs:slot", "row": i, "slot": sl, "got": x, "model": _transform(y, case)}
     if "layout_view" in g:
         # overlay the compact content on the expected matrix and judge it with the same freedoms
         E = exp["m"]
